@@ -39,6 +39,11 @@ package logger
 //@   attr blocking no
 //@   modifies nothing
 
+//@ iface Handler.IsDebug(h)
+//@   purefn
+//@   attr blocking no
+//@   modifies nothing
+
 //@ iface Handler.IsAddSource(h)
 //@   purefn
 //@   attr blocking no
@@ -343,6 +348,7 @@ package logger
 //@   loop 1
 //@     invariant 0 <= i && i <= len(str) && len(str) > 0 && *buf == old(*buf)
 //@     invariant forall k int {str[k]} :: 0 <= k && k < i ==> tBare(str[k])
+//@     step rune: str[i] >= 128 ==> !unicode.IsSpace(utf8.DecodeRuneInString$0(str[i:])) && unicode.IsPrint(utf8.DecodeRuneInString$0(str[i:])) && next_i == i + utf8.DecodeRuneInString$1(str[i:])
 //@     decreases len(str) - i
 
 //@ func appendTextValue
@@ -573,3 +579,60 @@ package logger
 //@   requires opts != nil
 //@   modifies nothing
 //@   ensures result == (l >= opts.level)
+
+// the public entry points: each is the gate at its own level (Panic*/Fatal* additionally panic / exit afterwards)
+//@ func (*Logger).Debug
+//@   requires loggerOK(l)
+//@   modifies region(originMem), ghostfields(held), ghostfields(owned), ghostfields(jsonLine), wN, wErr, wCalls
+//@   ensures gate: wCalls == old(wCalls) + ite(l.h.Enabled(0), 1, 0)
+//@   ensures again: loggerOK(l)
+//@ func (*Logger).Debugf
+//@   requires loggerOK(l)
+//@   modifies region(originMem), ghostfields(held), ghostfields(owned), ghostfields(jsonLine), wN, wErr, wCalls
+//@   ensures gate: wCalls == old(wCalls) + ite(l.h.Enabled(0), 1, 0)
+//@   ensures again: loggerOK(l)
+//@ func (*Logger).Info
+//@   requires loggerOK(l)
+//@   modifies region(originMem), ghostfields(held), ghostfields(owned), ghostfields(jsonLine), wN, wErr, wCalls
+//@   ensures gate: wCalls == old(wCalls) + ite(l.h.Enabled(4), 1, 0)
+//@   ensures again: loggerOK(l)
+//@ func (*Logger).Infof
+//@   requires loggerOK(l)
+//@   modifies region(originMem), ghostfields(held), ghostfields(owned), ghostfields(jsonLine), wN, wErr, wCalls
+//@   ensures gate: wCalls == old(wCalls) + ite(l.h.Enabled(4), 1, 0)
+//@   ensures again: loggerOK(l)
+//@ func (*Logger).Warn
+//@   requires loggerOK(l)
+//@   modifies region(originMem), ghostfields(held), ghostfields(owned), ghostfields(jsonLine), wN, wErr, wCalls
+//@   ensures gate: wCalls == old(wCalls) + ite(l.h.Enabled(8), 1, 0)
+//@   ensures again: loggerOK(l)
+//@ func (*Logger).Warnf
+//@   requires loggerOK(l)
+//@   modifies region(originMem), ghostfields(held), ghostfields(owned), ghostfields(jsonLine), wN, wErr, wCalls
+//@   ensures gate: wCalls == old(wCalls) + ite(l.h.Enabled(8), 1, 0)
+//@   ensures again: loggerOK(l)
+//@ func (*Logger).Error
+//@   requires loggerOK(l)
+//@   modifies region(originMem), ghostfields(held), ghostfields(owned), ghostfields(jsonLine), wN, wErr, wCalls
+//@   ensures gate: wCalls == old(wCalls) + ite(l.h.Enabled(12), 1, 0)
+//@   ensures again: loggerOK(l)
+//@ func (*Logger).Errorf
+//@   requires loggerOK(l)
+//@   modifies region(originMem), ghostfields(held), ghostfields(owned), ghostfields(jsonLine), wN, wErr, wCalls
+//@   ensures gate: wCalls == old(wCalls) + ite(l.h.Enabled(12), 1, 0)
+//@   ensures again: loggerOK(l)
+//@ func (*Logger).Log
+//@   requires loggerOK(l) && validLevel(level)
+//@   modifies region(originMem), ghostfields(held), ghostfields(owned), ghostfields(jsonLine), wN, wErr, wCalls
+//@   ensures gate: wCalls == old(wCalls) + ite(l.h.Enabled(level), 1, 0)
+//@   ensures again: loggerOK(l)
+//@ func (*Logger).Logf
+//@   requires loggerOK(l) && validLevel(level)
+//@   modifies region(originMem), ghostfields(held), ghostfields(owned), ghostfields(jsonLine), wN, wErr, wCalls
+//@   ensures gate: wCalls == old(wCalls) + ite(l.h.Enabled(level), 1, 0)
+//@   ensures again: loggerOK(l)
+//@ func (*Logger).LogAttrs
+//@   requires loggerOK(l) && validLevel(level)
+//@   modifies region(originMem), ghostfields(held), ghostfields(owned), ghostfields(jsonLine), wN, wErr, wCalls
+//@   ensures gate: wCalls == old(wCalls) + ite(l.h.Enabled(level), 1, 0)
+//@   ensures again: loggerOK(l)
